@@ -371,6 +371,7 @@ class Runner:
             q._hloops = ["%s:%d" % (i, q.hunwind) for i in self.harness_loops(q, binp)]
         for u in getattr(q, "_hloops", None) or []:
             cmd += ["--unwindset", u]
+        cmd += ["--unwindset", "__ctype_b_loc.0:130"]      # the ASCII classification table model in harness/vh.h
         for u in q.unwindset:
             cmd += ["--unwindset", u]
         if q.objbits:
